@@ -15,7 +15,8 @@ EXPLANATION = (
     'sufficient, and is complemented by the exact wiring rules of C02/C03. R07.2 domain separation: labels used with '
     'one PRK / one salt are pairwise distinct, psk_id and info are hashed by separate extracts, and every element of '
     'key_schedule_context has a type-level fixed width ([u8; 1], Nh-byte digests), so moving bytes between adjacent '
-    'fields cannot collide by framing. Not decided: that different inputs give different outputs (collision / '
+    'fields cannot collide by framing. R07.3 the mode byte is a function of the mode variant alone and pairwise distinct for '
+    'the four modes (mode swaps with identical PSK data, empty versus absent). Not decided: that different inputs give different outputs (collision / '
     'pre-image resistance of HKDF) and hence "share no key material".')
 TRUSTED = ['HKDF/HMAC/SHA-2 are collision resistant PRFs', 'external calls depend on all of their arguments (conservative summary)']
 ASSUME = ['dependence through the trusted primitives is real (they do not ignore inputs)']
@@ -140,8 +141,36 @@ def check_domain_separation(rep, facts, rule='R07.2'):
         rep.check(len(set(labs)) == len(labs), rule, k, 'labels-distinct:%s' % nm, labs, 'labels used by one function with one kind of KDF call are pairwise distinct', None)
 
 
+def check_mode_injective(rep, facts, rule='R07.3'):
+    """the mode byte is a function of the variant alone and separates all four modes (so that Base vs Psk with an
+    empty bundle, or Auth vs AuthPsk, can never share a key schedule)"""
+    from . import modes
+    n = 0
+    for b in impl_bodies(facts, 'op_mode::OpMode', 'mode_id'):
+        if b.default_of:
+            continue
+        n += 1
+        a = get_an(facts, b.key)
+        path, adt = modes.adt_of_self(facts, b.impl_of['self_ty'])
+        tab = modes.table_for(rep, rule, a, adt)
+        if tab is None:
+            continue
+        vals = {}
+        okshape = True
+        for v, rows in tab.items():
+            if len(rows) != 1 or rows[0][0][0] != 'const':
+                okshape = False
+            else:
+                vals[v] = rows[0][0][2]
+        rep.check(okshape and len(set(vals.values())) == len(modes.variants_of(adt)) == 4, rule, b.key, 'mode-byte-injective', vals,
+                  'four pairwise distinct constants, one per variant, independent of the variant\'s contents', where(a))
+    return n
+
+
 def run(ctx):
     rep, facts = ctx.rep, ctx.facts
+    n3 = check_mode_injective(rep, facts)
+    rep.floor('R07.3', 'mode_id impls', n3, 2)
     check_key_schedule_deps(rep, facts)
     n = check_kem_deps(rep, facts)
     feats = facts.meta.get('features', [])
